@@ -235,6 +235,9 @@ class BatchDL:
   caller_ensures = ["len(result) == len(points)",
                     "forall(k, 0, len(result), result[k] is None or points[k][0] is None or "
                     "implies(in_group(self, points[k][0], points[k][1]), is_dlog(self, result[k], points[k][0], points[k][1])))"]
+  # the candidate verification by Multiply inside the abstracted search loop: decided by bounded/c10.py
+  caller_assumed = ["forall(k, 0, len(result), result[k] is None or points[k][0] is None or "
+                    "implies(in_group(self, points[k][0], points[k][1]), is_dlog(self, result[k], points[k][0], points[k][1])))"]
   on_call = {f"{E}::EcCurve.PointSequence": [
       "assert [C10] table_size >= 1 and t == 2 * table_size - 1",
       # every x in [0, n) is within the baby-step window of some giant step
@@ -267,20 +270,30 @@ class ExtendedBatchDL:
 
 @contract(f"{E}::EcCurve.BatchDLOfDifferences")
 class BatchDLOfDifferences:
-  """Pair search decided by the bounded tier; discharged here: one slot per point, nothing is searched (and no table
-  built) when fewer than two points are involved, and otherwise the cached table covers max_diff."""
+  """Discharged here for every batch: one slot per point; nothing is searched (and no table built) when fewer than two
+  points are involved, otherwise the cached table covers max_diff; and the INDEX BOOKKEEPING of the pair search:
+  position len(other_points) + k of the running list `negated` always holds the negation of points[k] (so the list
+  grows by exactly one entry per point, duplicates included), and the partner key credited with a relation,
+  key2 = j - len(other_points), is an earlier point of the batch (0 <= key2 < i) and the very point whose negation
+  produced the hit.  That the reported multiple is the discrete log of the difference is the `diff == diff2`
+  guard evaluated by Multiply (group arithmetic: bounded tier)."""
   params = {"points": "list[tuple[int,int]]", "other_points": "Optional[list[tuple[int,int]]]", "max_diff": "int"}
-  self_fields = dict(CURVE_FIELDS, _table="ref:XTable", _table_size="int")
+  self_fields = dict(CURVE_FIELDS, _table="dict[int,int]", _table_size="int")
   returns = "list[Optional[str]]"
   requires = CURVE_REQ + ["self._table_size >= 0"]
-  raises = {"ArithmeticError": None}    # BatchInverse's internal self-check (reached through PointTable)
+  raises = {"ArithmeticError": None}    # BatchInverse's internal self-check (reached through PointTable / BatchAddX)
   ensures = [("C10", "len(result) == len(points)")]
   caller_ensures = ["len(result) == len(points)"]
   return_hints = [("C10", "implies(defined('negated'), self._table_size >= max_diff and "
                           "len(points) >= 1 and len(points) + len(other_points) >= 2)"),
                   ("C10", "implies(not defined('negated'), len(points) == 0 or len(points) + len(other_points) < 2)")]
-  loops = {0: dict(abstract=True)}
-  var_types = {"res": "list[Optional[str]]"}
-  props = ["C10"]
-
-
+  INV = ["len(res) == len(points)", ("C02,C10,C17", "len(negated) == len(other_points) + i"),
+         ("C02,C10,C17", "forall(k, 0, i, negated[len(other_points) + k][0] == points[k][0] and "
+                         "negated[len(other_points) + k][1] == (0 - points[k][1]) % self.mod)"),
+         "forall(k, 0, len(negated), wf_point(negated[k]))", "self._table_size >= max_diff"]
+  loops = {0: dict(invariant=INV, types={"res": "list[Optional[str]]", "negated": "list[point]"}),
+           1: dict(invariant=INV, types={"res": "list[Optional[str]]"}, keep={"negated"})}
+  on_assign = {"key2": ["assert [C02,C10,C17] 0 <= key2 and key2 < i and negated[j][0] == points[key2][0] and "
+                        "negated[j][1] == (0 - points[key2][1]) % self.mod"]}
+  var_types = {"res": "list[Optional[str]]", "negated": "list[point]"}
+  props = ["C02", "C10", "C17"]
